@@ -324,15 +324,15 @@ struct RegHarness : Harness {
     }
     std::vector<std::string> probes(const std::string &p) const override {
         if (p == "C01") return {"handle_eq_entries", "handle_beyond", "float_nan", "float_inf", "float_subnormal", "float_negative_zero", "type_mismatch_refused",
-                                "constraint_refused", "always_fail_refused", "set_accepted", "unsafe_bypasses_constraint", "callback_area_set", "get_undecodable_storage", "big_endian_table", "sanitise_left_through_error_path", "first_init_failed_then_retried", "value_objects_with_stale_octets", "byte_order_requested_repeatedly", "areas_half_the_address_space_apart", "table_written_with_header_macros", "table_ends_at_top_of_address_space", "area_wider_than_64k_words"};
+                                "constraint_refused", "always_fail_refused", "set_accepted", "unsafe_bypasses_constraint", "callback_area_set", "get_undecodable_storage", "big_endian_table", "sanitise_left_through_error_path", "first_init_failed_then_retried", "reinit_after_register_moved_within_its_area", "value_objects_with_stale_octets", "byte_order_requested_repeatedly", "areas_half_the_address_space_apart", "table_written_with_header_macros", "table_ends_at_top_of_address_space", "area_wider_than_64k_words"};
         if (p == "C02") return {"write_inside_64bit_register", "partial_overlap_violates_constraint", "block_spans_two_areas", "block_into_readonly", "block_into_hole",
-                                "block_write_accepted", "block_decode_failure", "zero_length_write", "readonly_not_at_request_start", "reinit_after_registers_removed", "block_of_64k_words_or_more", "value_objects_with_stale_octets", "byte_order_requested_repeatedly", "areas_half_the_address_space_apart", "table_written_with_header_macros", "table_ends_at_top_of_address_space", "area_wider_than_64k_words", "request_ends_at_last_address"};
+                                "block_write_accepted", "block_decode_failure", "zero_length_write", "readonly_not_at_request_start", "reinit_after_registers_removed", "reinit_after_register_moved_within_its_area", "block_of_64k_words_or_more", "value_objects_with_stale_octets", "byte_order_requested_repeatedly", "areas_half_the_address_space_apart", "table_written_with_header_macros", "table_ends_at_top_of_address_space", "area_wider_than_64k_words", "request_ends_at_last_address"};
         if (p == "C03") return {"read_write_only_area_mid_area", "read_in_two_steps", "read_spans_two_areas", "read_into_hole", "zero_length_read", "iteration_starts_in_gap", "iteration_starts_mid_register",
-                                "iteration_stopped_by_callback", "iteration_negative_callback", "iteration_visits_several", "reinit_after_registers_removed", "area_without_read_callback", "value_objects_with_stale_octets", "byte_order_requested_repeatedly", "areas_half_the_address_space_apart", "table_written_with_header_macros", "table_ends_at_top_of_address_space", "area_wider_than_64k_words", "request_ends_at_last_address"};
+                                "iteration_stopped_by_callback", "iteration_negative_callback", "iteration_visits_several", "reinit_after_registers_removed", "reinit_after_register_moved_within_its_area", "area_without_read_callback", "value_objects_with_stale_octets", "byte_order_requested_repeatedly", "areas_half_the_address_space_apart", "table_written_with_header_macros", "table_ends_at_top_of_address_space", "area_wider_than_64k_words", "request_ends_at_last_address"};
         if (p == "C04") return {"defect_no_areas", "defect_areas_swapped", "defect_area_overlap", "defect_regs_swapped", "defect_reg_overlap", "defect_reg_straddles_area_end",
-                                "defect_reg_in_hole", "defect_bad_default", "wellformed_accepted", "restart_over_surviving_callback_storage", "ops_report_uninitialised", "empty_area_between_populated", "reinit_of_initialised_table_rejected", "reinit_after_registers_removed", "value_objects_with_stale_octets", "byte_order_requested_repeatedly", "areas_half_the_address_space_apart", "table_written_with_header_macros", "table_ends_at_top_of_address_space", "area_wider_than_64k_words"};
+                                "defect_reg_in_hole", "defect_bad_default", "wellformed_accepted", "restart_over_surviving_callback_storage", "ops_report_uninitialised", "empty_area_between_populated", "reinit_of_initialised_table_rejected", "reinit_after_registers_removed", "reinit_after_register_moved_within_its_area", "value_objects_with_stale_octets", "byte_order_requested_repeatedly", "areas_half_the_address_space_apart", "table_written_with_header_macros", "table_ends_at_top_of_address_space", "area_wider_than_64k_words"};
         return {"invariant_checked_ops", "refused_op_left_storage_unchanged", "bit_set_exact", "bit_clear_exact", "bit_op_refused_signed_or_float", "sanitise_reset_some_kept_some",
-                "corrupt_then_sanitise", "block_write_refused_by_constraint", "sanitise_left_through_error_path", "sanitise_with_io_error_kept_valid_registers", "reinit_after_registers_removed", "value_objects_with_stale_octets", "byte_order_requested_repeatedly", "areas_half_the_address_space_apart", "table_written_with_header_macros", "table_ends_at_top_of_address_space", "area_wider_than_64k_words", "request_ends_at_last_address"};
+                "corrupt_then_sanitise", "block_write_refused_by_constraint", "sanitise_left_through_error_path", "sanitise_with_io_error_kept_valid_registers", "reinit_after_registers_removed", "reinit_after_register_moved_within_its_area", "value_objects_with_stale_octets", "byte_order_requested_repeatedly", "areas_half_the_address_space_apart", "table_written_with_header_macros", "table_ends_at_top_of_address_space", "area_wider_than_64k_words", "request_ends_at_last_address"};
     }
     Json describe(const std::string &p) const override {
         Json d = Json::obj();
@@ -576,7 +576,7 @@ struct RegHarness : Harness {
             o["cbfail"] = (long long)(r.chance(1, 2) ? -1 : (int64_t)r.below(6));   // an I/O error at the k-th callback-area access of the call, or none
         } else if (k == "redefect") {
             o["d"] = (long long)r.below(9); o["salt"] = (long long)r.below(1 << 20);
-        } else if (k == "reedit") {
+        } else if (k == "reedit" || k == "move") {
             o["salt"] = (long long)r.below(1 << 20);
         } else if (k == "foreach") {
             uint32_t addr = (uint32_t)r.range(0, hi);
@@ -613,11 +613,11 @@ struct RegHarness : Harness {
         int64_t bulk = 0;
         if (!macro && prop != "C04" && r.chance(1, t.thorough() ? 1500 : 4000)) { static const int64_t BN[] = {65537, 65600, 66000, 70000}; bulk = BN[r.below(4)]; ts = Sim::bulk_spec((size_t)bulk, r.chance(1, 2)); }
         std::vector<std::string> kinds;
-        if (prop == "C01") kinds = {"set", "set", "set", "set", "set_unsafe", "get", "get", "default", "corrupt", "sanitise_any"};
-        else if (prop == "C02") kinds = {"bw", "bw", "bw", "bw", "bw", "bw", "corrupt", "touchcheck", "reedit", "sanitise_any"};
-        else if (prop == "C03") kinds = {"br", "br", "br", "foreach", "foreach", "foreach", "corrupt", "corrupt", "reedit"};
-        else if (prop == "C04") kinds = {"corrupt", "restart", "probe_ops", "poststate", "redefect", "reedit"};
-        else kinds = {"set", "set", "set", "bit_set", "bit_clear", "bw", "bw", "bw", "sanitise", "sanitise_any", "corrupt", "reedit"};
+        if (prop == "C01") kinds = {"set", "set", "set", "set", "set_unsafe", "get", "get", "default", "corrupt", "sanitise_any", "move"};
+        else if (prop == "C02") kinds = {"bw", "bw", "bw", "bw", "bw", "bw", "corrupt", "touchcheck", "reedit", "sanitise_any", "move"};
+        else if (prop == "C03") kinds = {"br", "br", "br", "foreach", "foreach", "foreach", "corrupt", "corrupt", "reedit", "move"};
+        else if (prop == "C04") kinds = {"corrupt", "restart", "probe_ops", "poststate", "redefect", "reedit", "move"};
+        else kinds = {"set", "set", "set", "bit_set", "bit_clear", "bw", "bw", "bw", "sanitise", "sanitise_any", "corrupt", "reedit", "move"};
         if (prop == "C04") {
             // perturb the description by at most one defect
             int defect = r.chance(1, 3) ? -1 : (int)r.below(9);
@@ -951,6 +951,32 @@ struct RegHarness : Harness {
             COUNT("probe.reinit_after_registers_removed");
             if (P == "C04") { c.ops_done++; check_init(S, ri, ref_init(S.spec), cb_before, "reedit"); if (!c.viol.empty()) return; }
             if (ri.code != REG_INIT_SUCCESS) { S.inited = false; return; }
+            S.sync_model_from_actual();
+            return;
+        }
+        if (op == "move") {
+            // the live table is re-configured the way the library's own tests do it: one register's address is assigned in place (it stays
+            // inside its area and clear of its neighbours; whatever the library keeps in the entry object stays there), then register_init again
+            if (nr == 0 || !S.inited) return;
+            const uint64_t salt = (uint64_t)o.geti("salt");
+            const size_t ri = (size_t)(salt % nr);
+            const RegSpec g = S.spec.regs[ri]; const int ai = S.spec.area_of_reg(g);
+            if (ai < 0) return;
+            const AreaSpec &A = S.spec.areas[(size_t)ai]; const uint64_t w = wsize(g.type);
+            uint64_t lo = A.base, hi = (uint64_t)A.base + A.size;   // [lo, hi): where the register may lie
+            if (ri > 0) lo = std::max<uint64_t>(lo, (uint64_t)S.spec.regs[ri - 1].addr + wsize(S.spec.regs[ri - 1].type));
+            if (ri + 1 < nr) hi = std::min<uint64_t>(hi, S.spec.regs[ri + 1].addr);
+            if (hi < lo + w || hi - lo - w == 0) return;             // no other place for it
+            const uint64_t places = hi - lo - w;                     // positions other than the current one
+            uint64_t a = lo + (salt >> 8) % places; if (a >= g.addr) ++a;
+            S.spec.regs[ri].addr = (uint32_t)a;
+            S.entries[ri].address = S.up((uint32_t)a);
+            std::vector<std::vector<uint16_t>> cb_before = S.cbstore;
+            RegisterInit rin = register_init(&S.tbl);
+            c.ev(EV_API, 104, (uint64_t)rin.code, a); c.execs++;
+            COUNT("probe.reinit_after_register_moved_within_its_area");
+            if (P == "C04") { c.ops_done++; check_init(S, rin, ref_init(S.spec), cb_before, "move"); if (!c.viol.empty()) return; }
+            if (rin.code != REG_INIT_SUCCESS) { S.inited = false; return; }
             S.sync_model_from_actual();
             return;
         }
